@@ -25,7 +25,7 @@ def unit_hook(unit):
 def counterexample(job, bdir):
     """re-run the failed job with --trace under the small-model switch (NITRO_SMALL keeps the
     counterexample replayable natively); returns (recorded inputs, user-level trace lines, failing names)"""
-    j = driver.Job(job.unit, job.name.replace("@", "_") + "_trace", job.entry, job.enforce, job.replace, job.files,
+    j = driver.Job(job.unit, job.name.replace("@", "_").replace("+", "_") + "_trace", job.entry, job.enforce, job.replace, job.files,
                    list(job.defines) + ["NITRO_SMALL=1"], rec=job.rec, props=job.props, kind=job.kind, unwind=job.unwind)
     driver.run_job(j, os.path.join(bdir, j.name), backends=("cadical",), timeout=300, trace=True, incdirs=job.incdirs)
     if j.status != "done":
@@ -70,11 +70,11 @@ def triage(prop, job, labels, bdir, tags):
     if hook is not None:
         try:
             if inputs:
-                ok, detail = hook.native_replay(job.name.split("@")[0], inputs, bdir)
+                ok, detail = hook.native_replay(job.name.split("@")[0].split("+")[0], inputs, bdir)
                 rec["native_replay_of_counterexample"] = detail
                 reproduced = ok
             if not reproduced:
-                ok, detail = hook.native_sweep(job.name.split("@")[0], bdir)
+                ok, detail = hook.native_sweep(job.name.split("@")[0].split("+")[0], bdir)
                 rec["native_sweep"] = detail
                 reproduced = ok
         except Exception as e:
@@ -87,7 +87,7 @@ def triage(prop, job, labels, bdir, tags):
                           "the verifier output is attached")
     rec["seconds"] = round(time.time() - t0, 1)
     h = hashlib.sha256(json.dumps([prop, job.name, labels]).encode()).hexdigest()[:10]
-    path = os.path.join(VERIF, "replays", "%s_%s_%s.json" % (prop, job.name.replace("@", "_"), h))
+    path = os.path.join(VERIF, "replays", "%s_%s_%s.json" % (prop, job.name.replace("@", "_").replace("+", "_"), h))
     json.dump(rec, open(path, "w"), indent=1)
     return path, reproduced
 
